@@ -782,6 +782,9 @@ pub fn plan(property: &str, quick: bool) -> Plan {
             parts: vec![
                 Part::Bfs(Box::new(c06_scn("c06-endings", !quick, false)), lim(if quick { 6 } else { 7 }, 3_000_000, t(30.0, 900.0))),
                 Part::Bfs(Box::new(c06_scn("c06-endings-preconfigured", false, true)), lim(if quick { 5 } else { 7 }, 3_000_000, t(15.0, 600.0))),
+                // "its nickname is immediately available again": also under a connection limit, with
+                // refused connections in between (the slot scenario of C19)
+                Part::Bfs(Box::new(Slots { max: 2, with_password: false }), lim(if quick { 7 } else { 9 }, 2_000_000, t(5.0, 300.0))),
                 Part::Bfs(Box::new(c06_localoper_scn()), lim(if quick { 5 } else { 6 }, 2_000_000, t(15.0, 300.0))),
                 Part::Bfs(Box::new(c06_timeout_scn("c06-timeout")), lim(if quick { 6 } else { 8 }, 1_000_000, t(10.0, 300.0))),
                 Part::Bfs(Box::new(c06_ghost(!quick)), lim(if quick { 6 } else { 8 }, 2_000_000, t(20.0, 600.0))),
